@@ -8,7 +8,12 @@ use std::path::PathBuf;
 use std::sync::Mutex;
 use std::time::Instant;
 
-pub const VERIF_DIR: &str = "/verif";
+pub const VERIF_DIR_DEFAULT: &str = "/verif";
+
+/// Root of the verification directory: where ./check lives (evidence/, replays/, known_findings.json).
+pub fn verif_dir() -> String {
+    std::env::var("QPV_VERIF_DIR").unwrap_or_else(|_| VERIF_DIR_DEFAULT.to_string())
+}
 
 #[derive(Clone, Copy, Debug, PartialEq, Eq)]
 pub enum Tier {
@@ -268,7 +273,7 @@ pub struct KnownFinding {
 }
 
 pub fn load_known_findings() -> Vec<KnownFinding> {
-    let p = format!("{}/known_findings.json", VERIF_DIR);
+    let p = format!("{}/known_findings.json", verif_dir());
     let Ok(s) = std::fs::read_to_string(&p) else {
         return vec![];
     };
@@ -323,7 +328,7 @@ pub fn finish(ctx: &Ctx) -> i32 {
             continue;
         }
         let fp = fnv_str(&format!("{}|{}", v.signature, v.case));
-        let path = format!("{}/replays/{}-{:016x}.json", VERIF_DIR, ctx.id, fp);
+        let path = format!("{}/replays/{}-{:016x}.json", verif_dir(), ctx.id, fp);
         let body = json!({
             "property": ctx.id,
             "signature": v.signature,
@@ -332,7 +337,7 @@ pub fn finish(ctx: &Ctx) -> i32 {
             "tier": ctx.tier.name(),
             "case": v.case,
         });
-        let _ = std::fs::create_dir_all(format!("{}/replays", VERIF_DIR));
+        let _ = std::fs::create_dir_all(format!("{}/replays", verif_dir()));
         let _ = std::fs::write(&path, serde_json::to_string_pretty(&body).unwrap());
         lines.push(format!("VIOLATION property={} replay={}", ctx.id, path));
         eprintln!("violation [{}]: {}", v.signature, v.description);
@@ -377,8 +382,8 @@ pub fn finish(ctx: &Ctx) -> i32 {
         "known_findings_hit": known_hits.keys().cloned().collect::<Vec<_>>(),
         "infra_errors": t.infra,
     });
-    let _ = std::fs::create_dir_all(format!("{}/evidence", VERIF_DIR));
-    let path = format!("{}/evidence/{}.json", VERIF_DIR, ctx.id);
+    let _ = std::fs::create_dir_all(format!("{}/evidence", verif_dir()));
+    let path = format!("{}/evidence/{}.json", verif_dir(), ctx.id);
     let tmp = format!("{}.tmp", path);
     std::fs::write(&tmp, serde_json::to_string_pretty(&ev).unwrap()).expect("write evidence");
     std::fs::rename(&tmp, &path).expect("rename evidence");
